@@ -115,7 +115,7 @@ def check_c18(pid, tier, seed, replay=None):
     def nontrivial(s, evs): return sum(1 for e in evs if e.get('e') in ('Done', 'Solo')) >= NP
     ndone = sum(1 for s in scns for e in res['scn_events'].get(s.name, []) if e.get('e') == 'Done')
     return finish(pid, tier, seed, 'exploration', scns, res, RULES, t0,
-                  'scenarios = five programs with disjoint state (stereo VBR encoder, mono managed encoder, packet decoder, vorbisfile with float reads and every kind of seek, vorbisfile with integer reads and half rate), ten steps each, run on one thread each: (1) under interleavings generated by TLC from Instances.tla plus serial / round-robin / stalled / pairwise corner schedules, enforced by a baton at step granularity; (2) alone with fresh and freed heap memory poisoned with 0x00/0xFF, 0xAA/0x55, 0xFF/0x00; (3) free running under ThreadSanitizer; each program\'s output (every packet byte, granule position, float sample, integer sample, return value, position) is hashed and compared with its solo hash; the rounding mode and MXCSR are compared around every step; non-trivial = at least five program runs compared; distinct by script hash',
+                  'scenarios = five programs with disjoint state (stereo VBR encoder, mono managed encoder, packet decoder, vorbisfile with float reads and every kind of seek, vorbisfile with integer reads and half rate), ten steps each, run on one thread each: (1) under interleavings generated by TLC from Instances.tla plus serial / round-robin / stalled / pairwise corner schedules, enforced by a baton at step granularity; (2) alone with fresh and freed heap memory poisoned with 0x00/0xFF, 0xAA/0x55, 0xFF/0x00 and, before every step, half a megabyte of stack painted with the same byte (the VBR encoder starts and the managed encoder ends on a stretch of 1e-7 noise, where the linear predictor of the pre/post-extrapolation stops early); (3) free running under ThreadSanitizer; each program\'s output (every packet byte, granule position, float sample, integer sample, return value, position) is hashed and compared with its solo hash; the rounding mode and MXCSR are compared around every step; non-trivial = at least five program runs compared; distinct by script hash',
                   nontrivial, ['interleavings are enforced between API-call groups (steps), not inside a library call; free-running TSan runs are opportunistic', 'heap poisoning through ASan malloc_fill_byte / free_fill_byte',
                                'TLC, pthreads, ASan / TSan builds of the current tree'] + ([tsan_note] if tsan_note else []),
                   CHECKER, extra_cov=dict(design_model=mc, schedules=len(scheds), program_runs_compared=ndone, heap_fills=[f[0] for f in fills]),
